@@ -133,6 +133,75 @@ def model_and_replay(ctx, name, flags, subst, mode="bfs", sim=None, depth=None, 
     return r, s
 
 
+PINNED = {"BugNoneBound": "TRUE", "BugInverted": "TRUE", "BugSwitch": "TRUE", "BugMemLast": "TRUE"}
+REPAIRED = {k: "FALSE" for k in PINNED}
+TEETH = {"BugNoneBound": "CursorMatchesStrict", "BugInverted": "OpenNeverPanicsStrict",
+         "BugSwitch": "CursorMatchesStrict", "BugMemLast": "CursorMatchesStrict"}
+
+
+def teeth(ctx, flags):
+    """The model of the PINNED behaviour must still produce its counterexamples (one per defect), and
+    they must not reproduce on the code under test once it is repaired.
+    1. per defect: TLC on the variant with only that Bug* constant TRUE, the property without exemption
+       as invariant -> a counterexample is required;
+    2. the pinned variant's cases that run into a defect (taint) are exported with the property's
+       expectation and executed on the real code: a reproduced one is a VIOLATION like any other; the
+       difference between the pinned model's prediction and the repaired code is expected here and is
+       not counted as drift."""
+    small = dict(MaxCompact=1, MaxSteps=8)
+    found, errs = {}, []
+
+    def one(flag, inv):
+        try:
+            sub = dict(REPAIRED, **small)
+            sub[flag] = "TRUE"
+            text = tlc.cfg_variant("cursor", "CursorMC.cfg", subst=sub, drop=["INVARIANT"], add=["INVARIANTS " + inv])
+            r = tlc.run("cursor", "CursorMC", "CursorMC_teeth_%s.cfg" % flag, cfg_text=text, coverage=False, timeout=600,
+                        out_name="c09_teeth_%s" % flag, workers=2, must_pass=False)
+            if inv not in r["violated"]:
+                raise core.ToolError("the pinned variant of the model (%s) no longer violates %s (see %s)" % (flag, inv, r["out"]))
+            found[flag] = {"invariant": inv, "states_to_counterexample": r["generated"]}
+            os.remove(r["out"])
+        except Exception as e:  # noqa: BLE001
+            errs.append(e)
+    th = [threading.Thread(target=one, args=kv) for kv in TEETH.items()]
+    for t in th:
+        t.start()
+    for t in th:
+        t.join()
+    if errs:
+        raise errs[0]
+    sub = dict(PINNED, **dict(small, MaxSteps=7))
+    text = tlc.cfg_variant("cursor", "CursorMC.cfg", subst=sub, add=["ACTION_CONSTRAINT Export"])
+    r = tlc.run("cursor", "CursorMC", "CursorMC_teeth.cfg", cfg_text=text, coverage=False, timeout=600,
+                out_name="c09_teeth_%s" % ctx.tier, workers=WORKERS)
+    tainted = 0
+    with open(r["out"]) as f, open(r["out"] + ".tainted", "w") as g:
+        for line in f:
+            if line.startswith('"REPLAY') and ('\\"unbounded_side\\"' in line or '\\"inverted_range\\"' in line or
+                                               '\\"dir_switch_snapshot_exhausted\\"' in line or
+                                               '\\"memtable_upper_node_cached\\"' in line or '\\"Panic\\"' in line):
+                g.write(line)
+                tainted += 1
+    os.remove(r["out"])
+    if tainted == 0:
+        raise core.ToolError("teeth: the pinned variant exported no case that runs into a defect")
+    s = core.run_driver("cursor_run", ["replay", r["out"] + ".tainted", "--jobs", WORKERS, "--variants", 1, "--seed", ctx.seed],
+                        timeout=1200, env=scratch_env())
+    os.remove(r["out"] + ".tainted")
+    differs = s.get("drift_count", 0)
+    s["drift_count"], s["drift"] = 0, []
+    ctx.cov["teeth"] = {"counterexamples": found, "pinned_cases_into_defects": tainted, "executed": s["cases"],
+                        "reproduced_on_code_under_test": s["violation_count"],
+                        "prediction_of_pinned_model_differs": differs,
+                        "code_shows": {k: v == "TRUE" for k, v in flags.items()}}
+    if all(v == "FALSE" for v in flags.values()) and s["violation_count"] == 0 and differs == 0:
+        raise core.ToolError("teeth: pinned model and repaired code agree on every case that runs into a defect")
+    report(ctx, s, "teeth")
+    core.log("[c09] teeth: pinned model violates %s; %d cases into defects executed, %d reproduced, %d where the pinned "
+             "prediction differs from the code" % (sorted(set(TEETH.values())), s["cases"], s["violation_count"], differs))
+
+
 def split_trace(path, parts):
     """Cut an NDJSON trace at `reset` lines into about `parts` files; returns [(file, first_line_number)]."""
     size = os.path.getsize(path)
@@ -232,6 +301,7 @@ def run(ctx):
 def run_(ctx):
     core.build_harness(["cursor_run"])
     flags = probe_flags(ctx)
+    teeth(ctx, flags)
     if ctx.quick:
         # overlay: everything in the active memtable, the write-set overlay in full
         model_and_replay(ctx, "overlay", flags, dict(OVERLAY, MaxCommits=2, MaxWs=2, BoundPts="{3}", MaxSteps=8), variants=1)
